@@ -11,6 +11,13 @@ Failing-input search: every difference is a concrete (grammar, rule, token / cos
 which the implementation contradicts a proved-exact value; generated minimal
 sentences are checked by an independent Earley recogniser; hangs are observed by a
 watchdog and explained by the mirrored iteration (C17_mc_run_spec).
+Sentence costs, COSTS_FIXED = True (the repaired rule_min_costs / rule_max_costs, notes/C17-costs-fix.diff): the
+implementation's min_sentence_cost / max_sentence_cost of EVERY rule of EVERY generated grammar (cyclic and
+unproductive ones included) are compared bit for bit with the extracted MIRROR of the repaired functions
+(theories/C17/CostMirror.v), proved for all grammars and cost functions to terminate and to return the true
+minimum / maximum / u16::MAX for unbounded (C17_min_costs_fixed_exact, C17_max_costs_fixed_exact); a hang or a
+panic of the implementation where the mirror returns values is a violation; no known-finding class applies.
+COSTS_FIXED = True (the original functions): the four recorded defect classes are matched as known findings.
 """
 import itertools
 from vlib import core, cfg
@@ -18,6 +25,11 @@ from gen import grammars as G
 from gen import c17gen as CG
 
 U16MAX = 65535
+
+# False: /repo has the ORIGINAL rule_min_costs / rule_max_costs (known findings C17-min-cycle, C17-min-unproductive,
+#        C17-max-recursive, C17-max-early are expected and matched);
+# True:  /repo has the repaired functions of notes/C17-costs-fix.diff: exact comparison with the proved mirror, no known_key.
+COSTS_FIXED = True
 
 K_FOLLOW = "FOLLOW: symbols after a nullable rule are not looked through (one-symbol lookahead)"
 K_MIN_CYCLE = "min cost: iteration never terminates on a derivation cycle of productive rules"
@@ -93,6 +105,7 @@ class Model:
         self.nul, self.fi, self.fos, self.fot, self.hp = None, {}, {}, {}, None
         self.cm = None      # rule -> None (unproductive) | (min, max|None)
         self.mm = None      # ("done", [..]) | ("panic",) | ("diverges",) | ("fuel",)
+        self.fxmin = self.fxmax = None   # ("vals", [u16 per rule]) | ("panic", []) | ("fuel", [])   (mirror of the repaired functions)
         if not self.ok:
             return
         for s in [x.split() for x in line.split(" # ")]:
@@ -118,6 +131,12 @@ class Model:
                 self.cm[int(s[1])] = None if s[2] == "unproductive" else (int(s[2]), None if s[3] == "inf" else int(s[3]))
             elif k == "MM":
                 self.mm = (s[1], list(map(int, s[2:])))
+            elif k in ("FXMIN", "FXMAX"):
+                v = (s[1], []) if len(s) > 1 and s[1] in ("panic", "fuel") else ("vals", list(map(int, s[1:])))
+                if k == "FXMIN":
+                    self.fxmin = v
+                else:
+                    self.fxmax = v
 
 
 # ---- mirrors of the unchanged algorithms: used ONLY to decide whether a violation that was
@@ -256,6 +275,33 @@ def min_sentence_count(g, cost, cm, cap=2000):
     return max([cnt(r) for r in range(g.nrules) if cm.get(r) is not None] + [0])
 
 
+def min_sentence_count_fixed(g, cost, cm, cap=2000):
+    """the same for the repaired enumeration (derivations that do not use a rule again below itself); cap = too many"""
+    tp = tight_prods(g, cost, cm)
+    budget = [20000]
+
+    def cnt(r, active):
+        budget[0] -= 1
+        if budget[0] < 0:
+            return cap
+        tot = 0
+        active.add(r)
+        for p in tp.get(r, []):
+            rhs = g.prods[p][1]
+            if any(x % 2 and x // 2 in active for x in rhs):
+                continue
+            k = 1
+            for x in rhs:
+                if x % 2:
+                    k = min(cap, k * cnt(x // 2, active))
+                    if k == 0:
+                        break
+            tot = min(cap, tot + k)
+        active.discard(r)
+        return tot
+    return max([cnt(r, set()) for r in range(g.nrules) if cm.get(r) is not None] + [0])
+
+
 def min_sentence_sets(g, cost, cm, cap=400):
     tp = tight_prods(g, cost, cm)
     S = {r: set() for r in range(g.nrules)}
@@ -307,7 +353,14 @@ def gen_cases(ctx, n):
         g = f()
         if g is None:
             continue
-        cases.append((name, g, CG.costs_for(rng, g)))
+        costs = CG.costs_for(rng, g)
+        if COSTS_FIXED and rng.random() < 0.2:
+            # zero-cost tokens (outside the documented domain of the sentence generator, inside the cost functions'):
+            # only min/max_sentence_cost are compared on these cases
+            for x in list(costs):
+                if rng.random() < 0.4:
+                    costs[x] = 0
+        cases.append((name, g, costs))
     return cases
 
 
@@ -390,6 +443,10 @@ def evaluate(ctx, rep, fam, src, costs, im, mo, bad):
     # ---- costs
     if "nocost" in im.flags:
         return
+    fx_consistency(ctx, rep, base, g, mo, rn, bad)
+    if COSTS_FIXED:
+        costs_fixed(ctx, rep, base, g, im, mo, rn, tn, bad)
+        return
     cm = mo.cm
     if cm is None:
         ctx.count("reference_costs_not_certified")
@@ -463,6 +520,114 @@ def evaluate(ctx, rep, fam, src, costs, im, mo, bad):
                                            "max_sentence_cost is larger than every derivable sentence"),
                                rule=rn(r), impl="unbounded" if iv is None else iv, certified=cert,
                                all_differing_rules=[rn(a) for a in diffs], authority="C17_certified_costs_exact"), key=key)
+
+
+def fx_consistency(ctx, rep, base, g, mo, rn, bad):
+    """two proved references must agree (C17_fixed_costs_agree_certified); a difference is a defect of the tool chain"""
+    if mo.fxmin is None or mo.fxmax is None or mo.fxmin[0] == "fuel" or mo.fxmax[0] == "fuel":
+        bad.add("fx-mirror")
+        rep.violation(dict(base, what="the mirror of the repaired cost functions gave no answer (missing / out of fuel): contradicts "
+                           "C17_fixed_costs_terminate, i.e. a defect of the dump or the driver", mirror_min=mo.fxmin, mirror_max=mo.fxmax),
+                      no_input=True)
+        return
+    if mo.cm is None or mo.fxmin[0] != "vals" or mo.fxmax[0] != "vals":
+        return
+    for r in range(g.nrules):
+        v = mo.cm.get(r)
+        exp = (U16MAX, 0) if v is None else (v[0], U16MAX if v[1] is None else v[1])
+        if (mo.fxmin[1][r], mo.fxmax[1][r]) != exp:
+            bad.add("fx-vs-certified")
+            rep.violation(dict(base, what="the mirror of the repaired cost functions and the certified reference disagree "
+                               "(contradicts C17_fixed_costs_agree_certified: defect of the extraction / driver)", rule=rn(r),
+                               mirror=(mo.fxmin[1][r], mo.fxmax[1][r]), certified=exp), no_input=True)
+            return
+
+
+def costs_fixed(ctx, rep, base, g, im, mo, rn, tn, bad):
+    """COSTS_FIXED: bit-for-bit comparison of min_sentence_cost / max_sentence_cost of every rule with the proved mirror"""
+    if "fx-mirror" in bad:
+        return
+    rules = range(g.nrules)
+    start_rule = g.prods[g.start_prod][0]
+    fxmin, fxmax = mo.fxmin, mo.fxmax
+    cost = im.cost
+    show = lambda v: {rn(r): v[1][r] for r in rules} if v[0] == "vals" else v[0]
+    ref = {"mirror_min (65535 = no sentence)": show(fxmin), "mirror_max (65535 = unbounded, 0 = no sentence)": show(fxmax)}
+    # ---- minimum
+    min_equal = False
+    if fxmin[0] == "panic":
+        ctx.count("min_overflow_expected")
+        if not ("MINPANIC" in im.flags and "Overflow" in im.flags["MINPANIC"]):
+            bad.add("min")
+            rep.violation(dict(base, mirror=ref, what="min_sentence_cost returns although the true minimum cost of some rule does not fit u16 "
+                               "(the documented overflow panic is missing)", impl=im.flags or im.min,
+                               authority="C17_min_costs_fixed_panic_iff"))
+    elif "MINHANG" in im.flags or "MINPANIC" in im.flags:
+        bad.add("min-termination")
+        rep.violation(dict(base, mirror=ref, what=("min_sentence_cost does not terminate" if "MINHANG" in im.flags else
+                                            "min_sentence_cost panics (%s) although every true minimum fits u16" % im.flags["MINPANIC"]),
+                           authority="C17_min_costs_fixed_exact (the mirrored loop returns within nrules + 2 rounds with these values)"))
+    else:
+        vals = [im.min.get(r) for r in rules]
+        diffs = [r for r in rules if vals[r] != fxmin[1][r]]
+        if diffs:
+            bad.add("min")
+            pd = sorted((r for r in diffs if fxmin[1][r] != U16MAX), key=lambda r: (r == start_rule, r))
+            if pd:
+                rep.violation(dict(base, mirror=ref, what="min_sentence_cost differs from the true minimum", rule=rn(pd[0]), impl=vals[pd[0]],
+                                   true_minimum=fxmin[1][pd[0]], all_differing_rules=[rn(a) for a in diffs],
+                                   authority="C17_min_costs_fixed_exact"))
+            else:
+                rep.violation(dict(base, mirror=ref, what="min_sentence_cost of a rule that derives no sentence is not the u16::MAX of the mirrored "
+                                   "algorithm (the property does not constrain this value; C17_min_costs_fixed_exact is no longer about this code)",
+                                   rule=rn(diffs[0]), impl=vals[diffs[0]]), no_input=True)
+        else:
+            min_equal = True
+    # ---- maximum
+    if fxmax[0] == "panic":
+        ctx.count("max_overflow_expected")
+        if not ("MAXPANIC" in im.flags and "Overflow" in im.flags["MAXPANIC"]):
+            bad.add("max")
+            rep.violation(dict(base, mirror=ref, what="max_sentence_cost returns although the true finite maximum cost of some rule does not fit u16 "
+                               "(the documented overflow panic is missing)", impl=im.flags or im.max,
+                               authority="C17_max_costs_fixed_panic_iff"))
+    elif "MAXHANG" in im.flags or "MAXPANIC" in im.flags:
+        bad.add("max-termination")
+        rep.violation(dict(base, mirror=ref, what=("max_sentence_cost does not terminate" if "MAXHANG" in im.flags else
+                                            "max_sentence_cost panics (%s) although every true finite maximum fits u16" % im.flags["MAXPANIC"]),
+                           authority="C17_max_costs_fixed_exact (all mirrored loops return within their fuel with these values)"))
+    else:
+        vals = [U16MAX if im.max.get(r, "?") is None else im.max.get(r, "?") for r in rules]
+        diffs = [r for r in rules if vals[r] != fxmax[1][r]]
+        if diffs:
+            bad.add("max")
+            unprod = set(r for r in rules if fxmin[0] == "vals" and fxmin[1][r] == U16MAX)
+            pd = sorted((r for r in diffs if r not in unprod), key=lambda r: (r == start_rule, r))
+            if pd:
+                r = pd[0]
+                iv, cv = vals[r], fxmax[1][r]
+                rep.violation(dict(base, mirror=ref, what=("max_sentence_cost reports unbounded, the true maximum is finite" if iv == U16MAX else
+                                                    "max_sentence_cost is smaller than the cost of a derivable sentence" if iv < cv else
+                                                    "max_sentence_cost is larger than every derivable sentence"),
+                                   rule=rn(r), impl="unbounded" if iv == U16MAX else iv, true_maximum="unbounded" if cv == U16MAX else cv,
+                                   all_differing_rules=[rn(a) for a in diffs], authority="C17_max_costs_fixed_exact"))
+            else:
+                rep.violation(dict(base, mirror=ref, what="max_sentence_cost of a rule that derives no sentence is not the 0 of the mirrored algorithm "
+                                   "(the property does not constrain this value; C17_max_costs_fixed_exact is no longer about this code)",
+                                   rule=rn(diffs[0]), impl=vals[diffs[0]]), no_input=True)
+    # ---- minimal sentences, against the proved minima (token costs > 0, as sentence_generator documents)
+    if any(v == 0 for v in cost.values()):
+        ctx.count("zero_cost_token_costs_only")
+        return
+    if min_equal and fxmax[0] == "vals":
+        cmx = {r: (None if fxmin[1][r] == U16MAX else (fxmin[1][r], None if fxmax[1][r] == U16MAX else fxmax[1][r])) for r in rules}
+        productive = sorted((r for r in rules if cmx[r] is not None), key=lambda r: (r == start_rule, r))
+        cert = {rn(r): ("unproductive" if cmx[r] is None else {"min": cmx[r][0], "max": "unbounded" if cmx[r][1] is None else cmx[r][1]}) for r in rules}
+        if "MSHANG" in im.flags or "MSPANIC" in im.flags:
+            bad.add("min_sentence")
+            rep.violation(dict(base, what="min_sentence / min_sentences does not return", impl=im.flags, certified=cert))
+        else:
+            check_sentences(ctx, rep, base, g, cost, cmx, im, productive, rn, tn, cert, bad)
 
 
 def check_sentences(ctx, rep, base, g, cost, cm, im, productive, rn, tn, cert, bad):
@@ -545,7 +710,7 @@ def run(ctx):
             full.append(i)
             continue
         g = cfg.DGram(im.secs)
-        big = min_sentence_count(g, im.cost, mo.cm) >= 2000
+        big = (min_sentence_count_fixed if COSTS_FIXED else min_sentence_count)(g, im.cost, mo.cm) >= 2000
         (small if big else full).append(i)
     env = {"GVH_COST_TIMEOUT_MS": "1200"}
     p2 = {}
@@ -557,7 +722,7 @@ def run(ctx):
     for i, (o, args) in list(p2.items()):
         im = Impl(o)
         mm = models[i].mm[0] if models[i].mm else "?"
-        suspicious = (not im.ok) or any(k in im.flags for k in ("MSHANG", "MAXHANG")) or ("MINHANG" in im.flags and mm != "diverges")
+        suspicious = (not im.ok) or any(k in im.flags for k in ("MSHANG", "MAXHANG")) or ("MINHANG" in im.flags and (COSTS_FIXED or mm != "diverges"))
         if suspicious:
             ctx.count("rerun_alone")
             o2 = core.run_lines([exe] + args, [lines[i]], shards=1,
@@ -568,7 +733,7 @@ def run(ctx):
             p2[i] = (o2, args)
     rep = Reporter(ctx)
     aspects = ["nullable", "first", "has_path", "follow", "min", "min-termination", "min-mirror", "max", "max-termination",
-               "min_sentence", "min_sentences", "analyses-panic", "uncertified", "lost"]
+               "min_sentence", "min_sentences", "analyses-panic", "uncertified", "lost", "fx-mirror", "fx-vs-certified"]
     failed = set()
     for i, (fam, gr, costs) in enumerate(cases):
         im1, mo = impl1[i], models[i]
@@ -624,6 +789,10 @@ def run(ctx):
         "(textbook algorithm): strict <= impl <= textbook is demanded, equality when every rule is reachable",
         "has_path(a,b) is reachability in >= 1 production steps (has_path(a,a) iff a is recursive), as documented",
         "cost values are demanded for rules that derive at least one token string; termination for every grammar; costs 1..255 (0 excluded as documented)",
+        ("COSTS_FIXED = True: min/max_sentence_cost of every rule (unproductive ones too: u16::MAX / 0 by the repaired functions' convention) are "
+         "compared with the mirror proved exact for all grammars (C17_min_costs_fixed_exact, C17_max_costs_fixed_exact)") if COSTS_FIXED else
+        ("COSTS_FIXED = False: the original rule_min_costs / rule_max_costs are in /repo; their four defect classes are known findings; the mirror of "
+         "the repaired functions is only cross-checked against the certified reference (C17_fixed_costs_agree_certified)"),
         "min_sentences is compared as a set (duplicates and order are free); sets beyond 400 sentences are not compared",
         "the reference costs are certified per case by verified checkers (C17_certified_costs_exact); a case on which the search finds no "
         "accepted certificate is counted as 'reference_costs_not_certified' and fails an obligation, it is never turned into a verdict",
